@@ -64,6 +64,10 @@ pub mod verif_std {
     #[verifier::external_body]
     pub fn verif_clock_secs() -> (r: u64) ensures r == clock_reading(), r < 0x4000_0000_0000_0000 { unimplemented!() }
 
+    // std integer helpers a refactoring of the window check may reach for (exact std semantics)
+    pub assume_specification [u64::abs_diff] (a: u64, b: u64) -> (r: u64)
+        ensures r as int == (if a >= b { a as int - b as int } else { b as int - a as int });
+
     // ---- the property as spec functions ----
     /// "its timestamp lies within the accepted window (5 minutes back, 30 seconds ahead)"
     pub open spec fn in_window(ts: u64, now: u64) -> bool {
